@@ -131,8 +131,8 @@ class Unit:
             self._bump_dtr0()
         if not reply or not stored:
             return None
-        if f == "garble":
-            self.garble_next = True
+        if f in ("garble", "garble-same"):
+            self.garble_next = f
         return value
 
 
@@ -600,14 +600,17 @@ class Bus:
         for u in self.units:
             a = u.receive(bits, value, self.t_us)
             if getattr(u, "garble_next", False):
+                garbled = u.garble_next
                 u.garble_next = False
-                garbled = True
             if a is not None:
                 answers.append(a)
         if not answers:
             out = ("silent",)
         elif len(answers) == 1 and not garbled:
             out = ("value", answers[0])
+            self.t_us += 7000 + T_BF
+        elif len(answers) == 1 and garbled == "garble-same":
+            out = ("error", answers[0])                       # framing error, bits intact by bad luck
             self.t_us += 7000 + T_BF
         else:
             out = ("error", (sum(answers) + 0x3C) & 0xFF)     # collision: garbage bits
@@ -714,13 +717,17 @@ def run_sequence(gen, bus, answer_faults=None, cap=5000, env=None, log=None):
             told = out
             if fault == "drop" and out[0] != "silent":
                 told = ("silent",)
-            elif fault == "garble" and out[0] != "silent":
-                # a frame received with a framing error does not carry the
-                # sender's bits: whoever trusts them gets garbage
-                told = ("error", (out[1] ^ 0x5B) & 0xFF)
-            elif fault == "garble" and out[0] == "silent":
+            elif fault in ("garble", "garble-same") and out[0] != "silent":
+                # a frame received with a framing error need not carry the
+                # sender's bits: whoever trusts them gets garbage ("garble") -
+                # or, by bad luck, exactly the right bits ("garble-same": two
+                # units sending the same byte, a timing violation)
+                told = ("error", out[1] if (fault == "garble-same" and out[0] == "value") else (out[1] ^ 0x5B) & 0xFF)
+                fault = "garble"
+            elif fault in ("garble", "garble-same") and out[0] == "silent":
                 # noise on the bus where nobody answered: a framing error
                 told = ("error", 0)
+                fault = "garble"
             elif fault == "drop":
                 fault = None
             log.add(bus.t_us * 1e-6, "cmd", "seq", (bits, value, told))
